@@ -16,7 +16,7 @@ Verdicts(ev) ==
         ELSE IF \E k \in 1..Len(want) : ev.res[k].cls # want[k].cls THEN <<"wrong_layer_class">>
         ELSE IF \E k \in 1..Len(want) : ev.res[k].kq # want[k].kq \/ ev.res[k].bq # want[k].bq \/ ev.res[k].rq # want[k].rq
                                         \/ ev.res[k].sq # want[k].sq \/ ev.res[k].pq # want[k].pq THEN <<"wrong_weight_quantizers">>
-        ELSE IF \E k \in 1..Len(want) : ev.res[k].act # want[k].act THEN <<"wrong_activation">>
+        ELSE IF \E k \in 1..Len(want) : ev.res[k].act # want[k].act \/ ev.res[k].ra # want[k].ra THEN <<"wrong_activation">>
         ELSE <<>>)
        \o (IF ev.src # 1 THEN <<"source_model_modified">> ELSE <<>>)
        \o (IF ev.dct # 1 THEN <<"callers_dictionary_modified">> ELSE <<>>)
